@@ -18,6 +18,14 @@ CLAIMED = {
             "Runtime monitoring: subscribers of every kind and option combination are opened while writers are parked inside their commit/publish windows (and vice versa), and at random instants under stress with random consumer pacing; all written values are uniquely tagged. At the quiescent point after the writers returned, each subscriber's folded view must equal Get/List (with its read mask), its delivery order must not contradict the commit order, a backpressured stream must have no gaps, and no writer may be blocked while consumers keep receiving.",
             "Quiescence (every goroutine blocked in two identical atomic dumps) stands for 'once writers stop and the reader has drained'; consumers that stop receiving are C09/C10's subject; more than 3 writers are not explored.",
             "DESIGN.md §4 C03"),
+    "C04": ("online trace checker: every backpressured subscriber's events compared with the single writer's log (sequential model) after each write, at quiescent points; counting fake clock for change times",
+            "Runtime monitoring: histories of successful and failing Set/Add/Update/Delete calls (with and without WithWriteTime) are driven one call at a time; backpressured subscribers with every option combination are opened before every step; after every step count, order, id, kind, new/old value, change time, seed flags, seed order and seed change times of what each subscriber received are compared with the writer's log. Exhaustive for short histories, random for long ones.",
+            "Change times are decided with a counting fake clock (a reported time identifies the reading it came from): exact when a write time is given, otherwise within the readings taken during the call; the equivalence used is a true equivalence relation applied to read-masked values.",
+            "DESIGN.md §4 C04"),
+    "C08": ("online reference-model monitor: decision table per event and fold(filtered stream) vs List(WithInclude) at quiescent points, predicates enumerated as truth tables",
+            "Runtime monitoring: all 64 predicates over (id, value) as truth tables x exhaustive short write histories x backpressure on/off are run on the real collection; after every write the drained events are judged against the four-row inclusion decision table and the fold of the stream against List with the same predicate; lossy merges are enumerated by parking the consumer at quiescent points. The booking server's ListBookings/PullBookings are checked the same way.",
+            "An absent item is never a member of the filtered collection whatever the predicate answers for nil; change times and old values of merged lossy events are not asserted.",
+            "DESIGN.md §4 C08"),
     "C18": ("reference-model monitor (dense-timeline / step-function brute-force oracle) over exhaustive small grids and random inputs",
             "Runtime monitoring: every period pair on a small exhaustive grid, random 64-bit-range timestamps and random segment/mode lists are run through the real functions and compared with brute-force mathematical oracles; arguments are shadow-copied to detect mutation. Held on the executions listed in the evidence, nothing more.",
             "Oracles are written from the property text; float32 magnitudes are small integers so arithmetic is exact; inputs outside the stated domain (inverted periods) are counted, not judged.",
